@@ -19,6 +19,7 @@ def rReplyRecv := "reached only after peerHandler's MAIN loop accepted the reque
 def rReplySend := "reply to a requester that is parked in a bare receive on this channel right after its request was accepted (see the requester's row): the send always finds its receiver"
 def rBuf1 := "send on a channel created with capacity 1 for this request/batch; exactly one send is made per channel (every send is followed by removing the batch/request from the pending set)"
 def rPeerHandlerLive := "the counterpart is peerHandler's main loop, which keeps serving this channel until ChainService.quit is closed — the last step before the final Wait, i.e. after every earlier Wait that could be waiting for this goroutine"
+def rWorkMgrVerdict := "errChan is the capacity-1 verdict channel of workManager.Query: the dispatcher answers every accepted batch exactly once, at the latest from its deferred loop when it exits (ErrWorkManagerShuttingDown), and Query answers at once when the work manager's quit is closed. When this runs on the UTXO scanner's goroutine the other alternative, ChainService.quit, closes too late; the release relies on workManager.Stop preceding utxoScanner.Stop (C17_stop_order)"
 def rCondStop := "Stop re-signals this condition every 50 ms until the waiting goroutine has exited (C17_cond_wakers); after every wake-up the loop polls the quit channel (next row, has default)"
 
 def discharge : List Discharge := [
@@ -33,7 +34,9 @@ def discharge : List Discharge := [
   ⟨N.«chanutils.BatchWriter.Stop», N.«chanutils.BatchWriter.wg», rOwnWait⟩,
   ⟨N.«Rescan.WaitForShutdown», N.«Rescan.wg», "documented to be called after the caller closed its quit channel; the rescan goroutine's selects are rows of this table"⟩,
   ⟨N.«blockManager.Stop», N.«done», "helper goroutine: the 50 ms ticker alternative always fires; `done` is closed by Stop right after wg.Wait"⟩,
-  ⟨N.«UtxoScanner.Stop», N.«UtxoScanner.shutdown», "the time.After(50 ms) alternative always fires; the loop ends when batchManager returns (defer close(shutdown)); batchManager polls quit before and after every callback — the callbacks themselves are the rows ChainService.GetBlock / GetCFilter"⟩,
+  ⟨N.«UtxoScanner.Stop», N.«UtxoScanner.shutdown», "the time.After(50 ms) alternative always fires; the loop ends when batchManager returns (defer close(shutdown)); batchManager polls quit before and after every callback — the callbacks themselves are the rows ChainService.GetBlock / GetCFilter below"⟩,
+  ⟨N.«ChainService.GetBlock», N.«errChan», rWorkMgrVerdict⟩,
+  ⟨N.«ChainService.GetCFilter», N.«errChan», rWorkMgrVerdict ++ "; GetCFilter holds mtxCFilter while it waits, so callers queued on that mutex are released with it"⟩,
   -- condition variables
   ⟨N.«blockManager.cfHandler», N.«blockManager.newHeadersSignal», rCondStop⟩,
   ⟨N.«UtxoScanner.batchManager», N.«UtxoScanner.cv», rCondStop⟩,
@@ -71,7 +74,6 @@ def discharge : List Discharge := [
   ⟨N.«query.peerWorkManager.workDispatcher», N.«bp.errChan», rBuf1⟩,
   ⟨N.«query.peerWorkManager.workDispatcher», N.«batch.errChan», rBuf1⟩,
   ⟨N.«query.peerWorkManager.Query», N.«errChan», "send on the capacity-1 channel created six lines above, first send"⟩,
-  ⟨N.«query.peerWorkManager.Query», N.«query.peerWorkManager.newBatches», "callers on the scanner goroutine are waited for before the work manager's quit closes; until then the dispatcher is running and always returns to the select that receives newBatches (all its own sends are non-blocking, rows above)"⟩,
   -- rescan
   ⟨N.«rescanState.rescan», N.«blockntfns.Subscription.Notifications», "SubscriptionManager.Stop cancels every subscriber, which closes its Notifications channel; the receive then yields !ok and the rescan returns an error (the caller's own quit is an additional alternative)"⟩,
   ⟨N.«rescanState.waitForBlocks», N.«blockntfns.Subscription.Notifications», "as above: closed by SubscriptionManager.Stop, the function returns an error"⟩,
@@ -89,14 +91,10 @@ def discharge : List Discharge := [
   -- batch writer
   ⟨N.«chanutils.BatchWriter.AddItem», N.«chanutils.BatchWriter.queue.ChanIn()», "the queue goroutine receives ChanIn into an unbounded overflow list until queue.Stop, which BatchWriter.Stop calls last; the only caller (cfilter response handler) runs on worker goroutines, which workManager.Stop has waited for BEFORE filterBatchWriter.Stop (C17_stop_order). As a stand-alone component AddItem after Stop blocks for ever"⟩]
 
-/-- Examined and NOT harmless (recorded in known-findings.txt). -/
-def knownBlocking : List SiteKey := [
-  -- F8: bare send; once broadcastHandler has returned nobody receives
-  -- the UTXO scanner's goroutine calls GetBlock/GetCFilter synchronously; their only quit alternative is
-  -- ChainService.quit, closed AFTER utxoScanner.Stop has to return; with no connected peer the work manager
-  -- never produces a verdict (the batch timeout is only examined when a job result arrives)
-  ⟨N.«ChainService.GetBlock», N.«errChan»⟩,
-  ⟨N.«ChainService.GetCFilter», N.«errChan»⟩]
+/-- Examined and NOT harmless (recorded in known-findings.txt).  Empty since the repairs of
+`pushtx.Broadcaster.MarkAsConfirmed` (bare send, F8) and of the `ChainService.Stop` order (a UTXO scan waiting in
+GetBlock/GetCFilter kept utxoScanner.Stop, then called before workManager.Stop, from returning). -/
+def knownBlocking : List SiteKey := []
 
 /-- the order facts the reasons above rely on: (stopped first, stopped later, why) -/
 def orderDeps : List (Nat × Nat × String) := [
@@ -104,8 +102,8 @@ def orderDeps : List (Nat × Nat × String) := [
      "BatchWriter.AddItem is a bare send issued from worker goroutines"),
   (N.«call ChainService.broadcaster.Stop», N.«call ChainService.blockSubscriptionMgr.Stop»,
      "the broadcaster's handler cancels its block subscription on exit and needs the subscription handler running"),
-  (N.«call ChainService.utxoScanner.Stop», N.«call ChainService.workManager.Stop»,
-     "Query's newBatches send from the scanner goroutine relies on a running dispatcher"),
+  (N.«call ChainService.workManager.Stop», N.«call ChainService.utxoScanner.Stop»,
+     "a scan waiting in GetBlock/GetCFilter on the scanner's goroutine is released by the work manager's shutdown verdict, not by ChainService.quit"),
   (N.«call ChainService.workManager.Stop», N.«close ChainService.quit»,
      "the dispatcher's ConnectedPeers request is served by peerHandler"),
   (N.«call ChainService.blockManager.Stop», N.«close ChainService.quit»,
@@ -116,8 +114,8 @@ def orderDeps : List (Nat × Nat × String) := [
 
 /-- the order of ChainService.Stop that was reviewed -/
 def reviewedOrder : List Nat := [
-  N.«call ChainService.connManager.Stop», N.«call ChainService.broadcaster.Stop», N.«call ChainService.utxoScanner.Stop»,
-  N.«call ChainService.workManager.Stop», N.«call ChainService.blockSubscriptionMgr.Stop», N.«call ChainService.blockManager.Stop»,
+  N.«call ChainService.connManager.Stop», N.«call ChainService.broadcaster.Stop», N.«call ChainService.workManager.Stop»,
+  N.«call ChainService.utxoScanner.Stop», N.«call ChainService.blockSubscriptionMgr.Stop», N.«call ChainService.blockManager.Stop»,
   N.«call ChainService.addrManager.Stop», N.«call ChainService.filterBatchWriter.Stop», N.«close ChainService.quit»,
   N.«wait ChainService.wg»]
 
